@@ -164,6 +164,23 @@ def _lvl_recompute_loop(c: Ctx, r: RuleResult, f: Func, stores: list[ast.AST]) -
                   "level recomputation not in the recognised form (a counter stored inside the token loop)")
             continue
         var = s.value.id
+        # the loop must run on every path through the function: an early return may only test the iterated list itself
+        iterated = U(s.targets[0].value.value) if isinstance(s.targets[0].value, ast.Subscript) else U(s.targets[0].value)       # type: ignore[attr-defined]
+        for rt in own_nodes(f.node):
+            if isinstance(rt, ast.Return) and rt.lineno < loop.lineno and not any(x is rt for x in ast.walk(loop)):
+                guard = f.module.parents.get(rt)
+                ok_guard = False
+                if isinstance(guard, ast.If):
+                    names = {U(x) for x in ast.walk(guard.test) if isinstance(x, (ast.Attribute,)) and not isinstance(f.module.parents.get(x), ast.Attribute)}
+                    plain = {x.id for x in ast.walk(guard.test) if isinstance(x, ast.Name)}
+                    lens = {n_.targets[0].id for n_ in own_nodes(f.node) if isinstance(n_, ast.Assign) and isinstance(n_.targets[0], ast.Name)
+                            and isinstance(n_.value, ast.Call) and U(n_.value.func) == "len" and n_.value.args and U(n_.value.args[0]) == iterated}
+                    ok_guard = names <= {iterated} and plain <= ({iterated.split(".")[0], "len"} | lens)
+                r.add(f"{f.short}|early-exit|{alpha(f, guard if isinstance(guard, ast.If) else rt)[:50]}", c.where(f, rt), f.short,
+                      U(guard.test)[:60] if isinstance(guard, ast.If) else "return", "discharged" if ok_guard else "violation",
+                      "early exit only when the token list itself is empty" if ok_guard else
+                      f"the level recomputation can be skipped by an early return that does not test `{iterated}` itself: tokens retyped "
+                      f"by the delimiter post-processing keep stale levels")
         # the store must lie on every path through the loop body (not nested in a conditional)
         if f.module.parents.get(s) is not loop:
             r.add(f"{f.short}|level-store|every-token", c.where(f, s), f.short, U(s), "violation",
@@ -607,12 +624,24 @@ def rule_pair(c: Ctx) -> RuleResult:
             tags_c = {U(t.tag_expr) if t.tag_expr is not None else "?" for t in cl}
             mk_o = {U(t.stores["markup"]) for t in o if "markup" in t.stores}
             mk_c = {U(t.stores["markup"]) for t in cl if "markup" in t.stores}
+            pairwise = ""
+            if len(o) == len(cl):
+                for a_, b_ in zip(sorted(o, key=lambda t: t.lineno), sorted(cl, key=lambda t: t.lineno)):
+                    for fld in ("markup", "info"):
+                        va = U(a_.stores[fld]) if fld in a_.stores else None
+                        vb = U(b_.stores[fld]) if fld in b_.stores else None
+                        if va != vb and (va is not None or vb is not None):
+                            pairwise = (f"the `{stem}_open` at line {a_.lineno} carries {fld} {va} but its `{stem}_close` at line "
+                                        f"{b_.lineno} carries {vb}")
             if tags_o != tags_c:
                 r.add(key, c.where(f, anchor.node), f.short, f"{stem}_open / {stem}_close", "violation",
                       f"open and close of `{stem}` carry different tags: {sorted(tags_o)} vs {sorted(tags_c)}")
             elif mk_o != mk_c and mk_o and mk_c:
                 r.add(key, c.where(f, anchor.node), f.short, f"{stem}_open / {stem}_close", "violation",
                       f"open and close of `{stem}` carry different markup: {sorted(mk_o)} vs {sorted(mk_c)}")
+            elif pairwise:
+                r.add(key, c.where(f, anchor.node), f.short, f"{stem}_open / {stem}_close", "violation",
+                      pairwise + ": opening and closing tokens must pair up with matching markup")
             else:
                 r.add(key, c.where(f, anchor.node), f.short, f"{stem}_open / {stem}_close", "discharged",
                       f"both halves in this function with tag {sorted(tags_o)}")
